@@ -1134,7 +1134,7 @@ func (em *emitter) emitForRange(node *ast.ForRange) {
 	em.fb.setLabelAddr(rangeLabel)
 	endRange := em.fb.newLabel()
 	em.rangeLabels = append(em.rangeLabels, rangeLabel)
-	em.fb.emitRange(kExpr, exprReg, index, elem, exprType.Kind())
+	em.fb.emitRange(kExpr, exprReg, index, elem, exprType.Kind(), expr.Pos())
 	em.fb.emitGoto(endRange)
 	em.fb.enterScope()
 
